@@ -488,7 +488,7 @@ RULES = [
     Rule("C07.FRESH.arity", P7 + ("C11", "C16", "C10"), r_fresh_arity),
     Rule("C07.FRESH.domain-names", P7 + ("C12", "C13", "C20"), r_domain_names),
     Rule("C07.FRESH.variable", P7 + ("C12",), r_fresh_variables),
-    Rule("C07.unique-variables", P7 + P4 + ("C15",), r_unique_variables, extra={"C05": ("one generator per statement", "in exline_", "in replace_old_aggregates"), "C02": ("one generator per statement",)}),
+    Rule("C07.unique-variables", P7 + P4 + ("C15",), r_unique_variables, extra={"C05": ("one generator per statement", "in exline_", "in replace_old_aggregates", "known variables", "make_unique"), "C02": ("one generator per statement",)}),
     Rule("C07.FLOW.passthrough", P7, r_passthrough),
     Rule("C04.lexical", P4, r_lexical),
     Rule("C04.TABLE.binders", P4 + ("C16", "C10", "C13", "C14"), r_binders),
